@@ -41,6 +41,7 @@ type BookmarkExp struct {
 type Expect struct {
 	Flows     map[string][]string   `json:"flows,omitempty"`
 	Repeat    []string              `json:"repeat,omitempty"`
+	RepeatOncePerPage bool          `json:"repeat_once_per_page,omitempty"` // the repeating words come from position: fixed boxes: exactly once on every page
 	Margin    bool                  `json:"margin,omitempty"`  // margin boxes draw "pg<P>of<N>"
 	Probes    int                   `json:"probes,omitempty"`  // in-flow "np<N>" probes
 	ProbeLiteral int                `json:"probe_literal,omitempty"` // value shown by an inactive probe (default 9)
@@ -66,6 +67,8 @@ type Expect struct {
 	MarginBottom float64           `json:"margin_bottom,omitempty"`
 	// PageMargins: expected [top right bottom left] margins by page kind: first | left | right | blank-left | blank-right
 	PageMargins map[string][4]float64 `json:"page_margins,omitempty"`
+	PageMarginsBase [4]float64 `json:"page_margins_base,omitempty"` // with page_margins_nth: margins of a page no :nth rule matches
+	PageMarginsNth  []NthRule  `json:"page_margins_nth,omitempty"`  // @page :nth(an+b) { margin-<side>: value }, in cascade order
 	LegacyAttrs    bool `json:"legacy_attrs,omitempty"` // the document uses presentational attributes
 	MarginCounters bool `json:"margin_counters,omitempty"`
 	// WordPage: expected 0-based page of marker words, computed by the generator's own greedy
@@ -188,6 +191,23 @@ func (s *Scenario) FileNames() []string {
 }
 
 // Cfg is the configuration of one render.
+// NthRule is one '@page :nth(an+b) { margin-<side>: <value>px }' rule of a scenario.
+type NthRule struct {
+	A     int     `json:"a"`
+	B     int     `json:"b"`
+	Side  int     `json:"side"` // 0 top, 1 right, 2 bottom, 3 left
+	Value float64 `json:"value"`
+}
+
+// matches: some n >= 0 gives a*n+b == i (CSS an+b microsyntax, page index i starts at 1).
+func (r NthRule) matches(i int) bool {
+	if r.A == 0 {
+		return i == r.B
+	}
+	d := i - r.B
+	return d%r.A == 0 && d/r.A >= 0
+}
+
 type Cfg struct {
 	Engine string
 	Hints  bool
